@@ -57,10 +57,10 @@ def collect(pid, name=None):
     for d in demos:
         os.rename(os.path.join(wt, d + ".off"), os.path.join(wt, d))
     # 2. without the change
-    sh("git stash", cwd=wt)
+    sh(f"git apply -R {os.path.join(out, 'patch.diff')}", cwd=wt)  # not git stash: the stash is shared by all worktrees
     rc_demo_without, o = sh(f"go test -vet=off -count=1 -run 'Seeded|seeded|ZZ|Zz' {demo_run}", cwd=wt)
     log.append(("demo without change", rc_demo_without, o[-800:]))
-    sh("git stash pop", cwd=wt)
+    sh(f"git apply {os.path.join(out, 'patch.diff')}", cwd=wt)
     ok = rc_build == 0 and rc_demo_with != 0 and rc_suite == 0 and rc_demo_without == 0
     meta = {
         "property": pid,
